@@ -22,7 +22,11 @@ BOUNDS = {"graphs": "<=3 nodes (deductive), depth<=3 / fan-in<=2 (native)", "bod
 
 
 def tasks(tier):
-    return _core.compile_tasks() + _core.defns_tasks()[:4] + [dict(name="recode.tail", build=recode_c.t_recode_tail, mode="U"), dict(name="adapt_function", build=recode_c.t_adapt_function, mode="U")]
+    from . import _gen
+
+    # recurse(args) must behave like calling the function: the generated entry point and the rewritten call sites key the same
+    # argument the same way (per-instance verification of the emitted entry points, shared with C03 / C14)
+    return _gen.entry_tasks(tier) + _core.compile_tasks() + _core.defns_tasks()[:4] + [dict(name="recode.tail", build=recode_c.t_recode_tail, mode="U"), dict(name="adapt_function", build=recode_c.t_adapt_function, mode="U")]
 
 
 def conformance(tier):
